@@ -21,15 +21,16 @@ TEXT = {
         "technique": "Lean 4 proof (loop invariant) + generated-constant tie + differential correspondence with executable predicate",
     },
     "C08": {
-        "level_text": "Theorems C08_pieces_exact / C08_pieces_cover (for all reads, k, p<=k, permutations, containers): every piece returned by the "
-                      "model of msp_sequence is the exact substring at consecutive offsets overlapping by k-1, its extension byte is exactly "
-                      "the two flanking bases (none at a read end), and the pieces' k-mers in order are the read's k-mers, each once "
-                      "(corollary of the C07 theorem). The bucket clause (same k-mer => same bucket, in either strand) is stated in Lean "
-                      "(C08_bucket_pure_full) but NOT yet proved: it is decided by evaluating the reference function bucketOf on the real "
-                      "crate's pieces over generated read sets with planted shared k-mers.",
+        "level_text": "Theorems for the model of msp_sequence, for all reads, k, 1<=p<=k, containers: C08_bucket_pure - with an injective permutation of the "
+                      "4^p p-mers every k-mer of every piece lies in the bucket bucketOf(k-mer), a function of the k-mer alone (so every occurrence "
+                      "of a k-mer, in any read and position, carries the same bucket id); C08_bucket_strand_symmetric - in rc mode bucketOf(rc x) = "
+                      "bucketOf(x); C08_pieces_exact / C08_pieces_cover - every piece is the exact substring at consecutive offsets overlapping by "
+                      "k-1 with exactly the flanking bases as boundary extensions, and the pieces' k-mers in order are the read's k-mers, each once. "
+                      "Proved from the C07 theorem (the minimizer lies in every k-mer of its interval and is minimal there), injectivity of the rank "
+                      "on p-mers and of the permutation. The same predicates are evaluated on the crate's pieces over read sets with planted shared k-mers.",
         "design_ref": "DESIGN.md section 6, C08",
-        "level_note": COMMON_NOTE + "Partial: the bucket-purity theorem is not yet proved (exploration only for that clause).",
-        "technique": "Lean 4 proof (corollary of C07 + list algebra) + differential correspondence with executable predicate; bucket clause by execution only",
+        "level_note": COMMON_NOTE + "Guards: 2k-p <= 65535 (D7), permutation values < 2^64, permutation covers all 4^p ranks.",
+        "technique": "Lean 4 proof (corollary of the C07 scan theorem + injectivity argument) + differential correspondence with executable predicate",
     },
     "C10": {
         "level_text": "Generic theorems (any storage width w, any K with 2K<=w; instantiated on the table of 19 shipped types regenerated from "
@@ -177,7 +178,7 @@ TEXT = {
     "C04": {
         "level_text": "The full statement is written in Lean (C04_sharded_eq_direct_full) but NOT proved. Proved links of its chain: the pieces of every read "
                       "tile it exactly with true flanks (C08), per-shard compression yields the connected components of the shard's good links (C02, "
-                      "id level), re-compression merges every node at most once and never a censored one (C09). Missing: bucket purity, the "
+                      "id level), re-compression merges every node at most once and never a censored one (C09). Missing: the "
                       "characterisation of re-compression, closure of components. The property itself is decided by running both real pipelines "
                       "on the same read sets (6-10 (K,P) pairs, default and random permutations, stranded and unstranded, thresholds 1-3, with "
                       "and without sharded pruning) and comparing canonical partitions, payload totals and adjacencies; both are also diffed with "
